@@ -159,6 +159,15 @@ def Good (t : Target) (w : Fan.W) (r : St × Nat) : Prop :=
   | .connected => r.2 ≤ t.stream.length ∧ r.1 = (t.stream.take r.2).foldl (step t.o) (start t)
   | .tearing | .torn | .locked | .signaled | .done => r = (run t.o t.fs t.stream, t.stream.length)
 
+/-- the worker has begun to tear its connection down: its client has returned -/
+def sessionOver : Fan.W → Bool
+  | .tearing | .torn | .locked | .signaled | .done => true
+  | _ => false
+
+theorem good_over {t : Target} {w : Fan.W} {r : St × Nat} (hw : sessionOver w = true) (h : Good t w r) :
+    r = (run t.o t.fs t.stream, t.stream.length) := by
+  cases w <;> first | exact h | cases hw
+
 structure PInv (ts : List Target) (s : PSt) : Prop where
   len : s.rcv.length = ts.length
   good : ∀ (i : Nat) (t : Target) (w : Fan.W) (r : St × Nat), ts[i]? = some t → s.fan.ws[i]? = some w → s.rcv[i]? = some r → Good t w r
